@@ -3,6 +3,7 @@ from . import _stream as S
 
 PROP = "C02"
 LEVEL = "exploration"
+BLOCK = 32   # neighbouring configurations share a worker process
 RULE = ("all ten classes, grid + seeded random, every finalisation point, all permitted passes; the executor phase automaton checks sweep contiguity, single EndForward, Reverse from the adjoint position, EndReverse exactly at r == n, StopIteration x3 after the last permitted EndReverse; non-trivial = n >= 3; distinct = distinct (class, parameters, passes)")
 REQUIRED = ["C02.sweep_contiguous", "C02.end_forward_once", "C02.end_forward_at_n", "C02.reverse_from_adjoint_position", "C02.end_reverse_when_all_reversed", "C02.only_forward_before_end_forward", "C02.stop_iteration_after_end", "C02.no_work_after_last_reverse"]
 ASSUMPTIONS = ["executor semantics follow tests/test_validity.py",
